@@ -24,7 +24,7 @@ META = {
   "reentrant_*: two threads of one process; the second thread's whole call runs at the k-th allocator entry (table installed through p_mem_set_vtable) of the first one, one query per k; real SHA-1 on the concrete names alpha / bravo",
   "lock_eintr_max2: sem_wait interrupted at a symbolic subset (<=2) of its invocations inside p_shm_lock; shm_names_*: see C06 names_len*_realkey",
   "allocator never fails (C18), EINTR only in lock_eintr_* (the rest: C19), printf empty"],
- "outside": ["overlapping p_shm_new calls of two threads at allocator entries after the first key derivation (entries > 10: those are p_semaphore_new's, decided by C06 reentrant_sem_new_*); overlaps at points that are not allocator entries", "kernel semantics themselves; real page protection (P_SHM_ACCESS_READONLY)", "pshm-sysv.c (not built on this platform)", "more than 2 processes, one handle per process, one name",
+ "outside": ["overlapping p_shm_new calls of two threads at allocator entries after the first key derivation (entries > 10: those are p_semaphore_new's, decided by C06 reentrant_sem_new_*); overlaps at points that are not allocator entries", "kernel semantics themselves; real page protection (P_SHM_ACCESS_READONLY)", "pshm-sysv.c (not built on this platform; its segment lifetime - removed when the last process detaches - needs its own reference model; psemaphore-sysv.c is covered by C06 *_sysv)", "more than 2 processes, one handle per process, one name",
              "preemption depth > 1 (A1 B1 A2 B2 interleavings)", "histories longer than the stated number of calls",
              "a p_shm_new that loses a first-open race may return NULL (it then holds nothing); only the handles handed out are required to be coherent",
              "unmapping / descriptor accounting (C20)"],
